@@ -346,3 +346,49 @@ impl CachedZone {
         self.records.get(&key).cloned()
     }
 }
+
+/// Verification hooks (compiled only with `--cfg n0_computer_iroh_verif`): the packet store on an in-memory database, so that
+/// checks outside the crate can publish packets in any order and read back what is stored.
+#[cfg(n0_computer_iroh_verif)]
+#[allow(missing_docs, unreachable_pub)]
+pub mod verif_hooks {
+    use std::{sync::Arc, time::Duration};
+
+    use iroh_dns::pkarr::SignedPacket;
+    use n0_error::{Result, StdResultExt};
+
+    use super::{Options, signed_packets::SignedPacketStore};
+    use crate::{metrics::Metrics, util::PublicKeyBytes};
+
+    #[derive(Debug)]
+    pub struct PacketStore(SignedPacketStore);
+
+    impl PacketStore {
+        /// `max_batch_time`: how long one write transaction stays open after its first message.
+        pub fn in_memory(max_batch_time: Duration) -> Result<Self> {
+            let options = Options {
+                max_batch_time,
+                ..Default::default()
+            };
+            let db = redb::Database::builder()
+                .create_with_backend(redb::backends::InMemoryBackend::new())
+                .anyerr()?;
+            Ok(Self(SignedPacketStore::open(
+                db,
+                options,
+                Arc::new(Metrics::default()),
+            )?))
+        }
+
+        pub async fn upsert(&self, packet: SignedPacket) -> Result<bool> {
+            self.0.upsert(packet).await
+        }
+
+        /// The stored packet of the key that signed `packet_of_key`.
+        pub async fn get(&self, packet_of_key: &SignedPacket) -> Result<Option<SignedPacket>> {
+            self.0
+                .get(&PublicKeyBytes::from_signed_packet(packet_of_key))
+                .await
+        }
+    }
+}
